@@ -63,14 +63,128 @@ theorem runWorkers_stays_stopped (fuel : Nat) (m : M) (h : Life m.1) (he : m.1.e
         · exact ⟨he, hv⟩
       · exact ⟨he, hv⟩
 
-/-- **stop_reaches_stopped.** Whatever the torrent is doing (downloading, seeding, allocating or verifying
-behind a gate, fetching metadata, already stopping or stopped): after the `stop` command and the
-completions it releases, the status is `Stopped` — provided the loop has not panicked and no verify command
-is pending (`doVerify`; a pending verify turns the stop into a restart, see `verify_ends_stopped`). -/
-theorem stop_reaches_stopped (s : St) (p : Parked) (kn : Nat → Bool) (h : Life s)
+/-! ### a stop announcer that waits for a hanging tracker -/
+
+theorem stop_stopAnn_mono (s : St) (e : Bool) (h : s.stopAnn = true) : (s.stop e).stopAnn = true := by
+  rw [stop_eq]
+  split
+  · exact h
+  · simp [stopRun, stopFin]
+
+theorem pwdFinish_stopAnn_mono (m : M) (h : m.1.stopAnn = true) : (pwdFinish m).1.stopAnn = true := by
+  unfold pwdFinish
+  dsimp only
+  repeat' split
+  all_goals first
+    | (simp only [onSt_fst]; apply stop_stopAnn_mono; simpa using h)
+    | simpa using h
+
+theorem handlePieceWriteDone_stopAnn_mono (m : M) (w : WriteJob) (e : Bool) (h : m.1.stopAnn = true) :
+    (handlePieceWriteDone m w e).1.stopAnn = true := by
+  rw [handlePieceWriteDone_eq]
+  dsimp only
+  split
+  · simpa using h
+  · split
+    · simp only [onSt_fst]; apply stop_stopAnn_mono; simpa using h
+    · split
+      · simpa using h
+      · unfold pwdOk
+        apply pwdFinish_stopAnn_mono
+        simpa using h
+
+theorem writerRun_stopAnn_mono (m : M) (w : WriteJob) (h : m.1.stopAnn = true) :
+    (writerRun m w).1.stopAnn = true := by
+  unfold writerRun
+  dsimp only
+  repeat' split
+  all_goals (apply handlePieceWriteDone_stopAnn_mono; simpa using h)
+
+/-- While a tracker does not answer the `stopped` event the torrent stays `Stopping`: the only worker that
+can still complete is a write that was in flight, and its completion neither clears the stop announcer nor
+restarts anything. -/
+theorem runWorkers_hangs (fuel : Nat) (m : M) (h : Life m.1) (hs : m.1.stopAnn = true) (hh : m.1.stopHang = true)
+    (hv : m.1.doVerify = false) :
+    (runWorkers fuel m).1.errC = true ∧ (runWorkers fuel m).1.stopAnn = true ∧
+    (runWorkers fuel m).1.stopHang = true ∧ (runWorkers fuel m).1.doVerify = false := by
+  induction fuel generalizing m with
+  | zero => exact ⟨h.sa hs, hs, hh, hv⟩
+  | succ n ih =>
+    obtain ⟨i1, i2, i3, i4, i5, i6, i7, i8⟩ := h.idle (Or.inr hs)
+    unfold runWorkers
+    dsimp only
+    split
+    · exact ⟨h.sa hs, hs, hh, hv⟩
+    · simp only [hs, hh, i1, i2, Bool.false_eq_true, ↓reduceIte, Bool.false_and, Bool.not_true, Bool.and_false]
+      split
+      · split
+        · exact ih _ (writerRun_life m _ h) (writerRun_stopAnn_mono m _ hs) (by simpa using hh) (by simpa using hv)
+        · exact ⟨h.sa hs, hs, hh, hv⟩
+      · exact ⟨h.sa hs, hs, hh, hv⟩
+
+/-- A torrent that is not running has nobody a parked piece message could be delivered to. -/
+theorem deliverParked_quiet (m : M) (p : Parked) (h : Life m.1) (hq : m.1.errC = false ∨ m.1.stopAnn = true) :
+    (deliverParked m p).1 = m := by
+  obtain ⟨i1, i2, i3, i4, i5, i6, i7, i8⟩ := h.idle hq
+  unfold deliverParked
+  repeat' split
+  all_goals first
+    | rfl
+    | (rename_i hk; rw [St.findPeer, i6] at hk; simp at hk)
+
+/-- The workers' part of a step whose handler left the torrent stopped or stopping, with no verify pending:
+the stop announcer reports (unless a tracker hangs) and the torrent is stopped. -/
+theorem settle_not_running (n : Nat) (r : M) (hl : Life r.1) (hpan : r.1.panicked = none) (hdv : r.1.doVerify = false)
+    (hnr : r.1.errC = false ∨ r.1.stopAnn = true) :
+    (runWorkers (n + 1) r).1.doVerify = false ∧
+    ((runWorkers (n + 1) r).1.errC = false ∨
+      (r.1.stopHang = true ∧ (runWorkers (n + 1) r).1.errC = true ∧ (runWorkers (n + 1) r).1.stopAnn = true ∧
+        (runWorkers (n + 1) r).1.stopHang = true)) := by
+  by_cases hs : r.1.stopAnn = true
+  · cases hh : r.1.stopHang
+    · -- the stop announcer reports, `handleStopped` clears `errC`
+      have h1 := handleStopped_life r hl hs
+      have hstep : runWorkers (n + 1) r = runWorkers n (handleStopped r) := by
+        conv => lhs; unfold runWorkers
+        simp [hpan, hs, hh]
+      rw [hstep]
+      have := runWorkers_stays_stopped n _ h1 (by unfold handleStopped; simp [hdv]) (by unfold handleStopped; simp [hdv])
+      exact ⟨this.2, Or.inl this.1⟩
+    · have := runWorkers_hangs (n + 1) r hl hs hh hdv
+      exact ⟨this.2.2.2, Or.inr ⟨rfl, this.1, this.2.1, this.2.2.1⟩⟩
+  · -- already stopped
+    have he : r.1.errC = false := by
+      rcases hnr with h' | h'
+      · exact h'
+      · exact absurd h' hs
+    have := runWorkers_stays_stopped (n + 1) _ hl he hdv
+    exact ⟨this.2, Or.inl this.1⟩
+
+/-- The last phase of a step (delivery of the parked message) when the workers left the torrent not running. -/
+theorem settle_step (m : M) (p' : Parked) (c : Bool) (hl : Life m.1) (hnr : m.1.errC = false ∨ m.1.stopAnn = true) :
+    (if c = true then (deliverParked m p').1.1 else m.1) = m.1 := by
+  split
+  · rw [deliverParked_quiet _ _ hl hnr]
+  · rfl
+
+theorem settle_nr {a : St} {x : Bool} (h : a.errC = false ∨ (x = true ∧ a.errC = true ∧ a.stopAnn = true ∧ a.stopHang = true)) :
+    a.errC = false ∨ a.stopAnn = true := by
+  rcases h with h | h
+  · exact Or.inl h
+  · exact Or.inr h.2.2.1
+
+/-- **stop_reaches_stopped (general form).**  Whatever the torrent is doing (downloading, seeding,
+allocating or verifying behind a gate, fetching metadata, already stopping or stopped): after the `stop`
+command and the completions it releases, no verify is pending and the status is `Stopped` — or, if a
+tracker does not answer the `stopped` event (`stopHang`), `Stopping` with the announcer still waiting.
+Hypotheses: the loop has not panicked and no verify command is pending (`doVerify`; a pending verify turns
+the stop into a restart, see `verify_ends_stopped`). -/
+theorem stop_reaches_stopped_or_hangs (s : St) (p : Parked) (kn : Nat → Bool) (h : Life s)
     (hp : s.panicked = none) (hv : s.doVerify = false) :
-    (step s p kn .stop).1.st.status = .stopped := by
-  rw [status_stopped_iff, step_st]
+    (step s p kn .stop).1.st.doVerify = false ∧
+    ((step s p kn .stop).1.st.status = .stopped ∨
+      (s.stopHang = true ∧ (step s p kn .stop).1.st.status = .stopping ∧ (step s p kn .stop).1.st.stopHang = true)) := by
+  rw [status_stopped_iff, status_stopping_iff, step_st]
   -- the state after the handler
   generalize hm : (handle { s with sto := [], mayStart := [], closedDl := [], mayStartI := false } p kn .stop) = r
   have h0 : Life { s with sto := [], mayStart := [], closedDl := [], mayStartI := false } := h.congr (by lframe)
@@ -79,36 +193,64 @@ theorem stop_reaches_stopped (s : St) (p : Parked) (kn : Nat → Bool) (h : Life
     rw [← hm]; simp only [handle, onSt_fst]; rw [stop_panicked]; exact hp
   have hdv : r.1.1.doVerify = false := by
     rw [← hm]; simp only [handle, onSt_fst, stop_doVerify]; exact hv
-  have hpk : r.2.2 = p := by rw [← hm]; rfl
-  -- after the workers: stopped
-  have hrw : (runWorkers 12 r.1).1.errC = false ∧ (runWorkers 12 r.1).1.doVerify = false := by
-    by_cases hs : r.1.1.stopAnn = true
-    · -- the stop announcer reports, `handleStopped` clears `errC`
-      have h1 := handleStopped_life r.1 hl hs
-      have hstep : runWorkers 12 r.1 = runWorkers 11 (handleStopped r.1) := by
-        conv => lhs; unfold runWorkers
-        simp [hpan, hs]
-      rw [hstep]
-      apply runWorkers_stays_stopped 11 _ h1
-      · unfold handleStopped; simp [hdv]
-      · unfold handleStopped; simp [hdv]
-    · -- already stopped
-      have he : r.1.1.errC = false := by
-        rw [← hm] at hs ⊢
-        simp only [handle, onSt_fst] at hs ⊢
-        rcases stop_idle { s with sto := [], mayStart := [], closedDl := [], mayStartI := false } false with h' | h'
-        · exact h'
-        · exact absurd h' hs
-      exact runWorkers_stays_stopped 12 _ hl he hdv
-  have hl2 := runWorkers_life 12 r.1 hl
-  split
-  · -- a parked piece message has nobody to be delivered to
-    obtain ⟨i1, i2, i3, i4, i5, i6, i7, i8⟩ := hl2.idle (Or.inl hrw.1)
-    unfold deliverParked
-    repeat' split
-    all_goals first
-      | exact hrw.1
-      | (rename_i hk; rw [St.findPeer, i6] at hk; simp at hk)
-  · exact hrw.1
+  have hsh : r.1.1.stopHang = s.stopHang := by
+    rw [← hm]; simp only [handle, onSt_fst, stop_stopHang]
+  have hnr : r.1.1.errC = false ∨ r.1.1.stopAnn = true := by
+    rw [← hm]
+    simp only [handle, onSt_fst]
+    exact stop_idle { s with sto := [], mayStart := [], closedDl := [], mayStartI := false } false
+  obtain ⟨h1, h2⟩ := settle_not_running 11 r.1 hl hpan hdv hnr
+  rw [settle_step _ r.2.2 p.isSome (runWorkers_life 12 r.1 hl) (settle_nr h2)]
+  refine ⟨h1, ?_⟩
+  rcases h2 with h2 | ⟨h2, h3⟩
+  · exact Or.inl h2
+  · exact Or.inr ⟨hsh ▸ h2, ⟨h3.1, h3.2.1⟩, h3.2.2⟩
+
+/-- **stop_reaches_stopped.**  With every tracker answering (`stopHang = false`) the status after the
+`stop` command is `Stopped`. -/
+theorem stop_reaches_stopped (s : St) (p : Parked) (kn : Nat → Bool) (h : Life s)
+    (hp : s.panicked = none) (hv : s.doVerify = false) (hh : s.stopHang = false) :
+    (step s p kn .stop).1.st.status = .stopped := by
+  rcases (stop_reaches_stopped_or_hangs s p kn h hp hv).2 with h1 | h1
+  · exact h1
+  · rw [hh] at h1; cases h1.1
+
+/-- **waitstop_reaches_stopped.**  `TrackerStopTimeout` has passed (`Op.waitstop`): the stop announcer
+gives up, `handleStopped` runs, and a stopping (or stopped) torrent without a pending verify is `Stopped`,
+whatever `stopHang` was. -/
+theorem waitstop_reaches_stopped (s : St) (p : Parked) (kn : Nat → Bool) (h : Life s)
+    (hp : s.panicked = none) (hv : s.doVerify = false)
+    (hs : s.status = .stopping ∨ s.status = .stopped) :
+    (step s p kn .waitstop).1.st.status = .stopped ∧ (step s p kn .waitstop).1.st.doVerify = false := by
+  rw [status_stopped_iff, step_st]
+  generalize hm : (handle { s with sto := [], mayStart := [], closedDl := [], mayStartI := false } p kn .waitstop) = r
+  have h0 : Life { s with sto := [], mayStart := [], closedDl := [], mayStartI := false } := h.congr (by lframe)
+  have hl : Life r.1.1 := by rw [← hm]; exact handle_life _ p kn .waitstop h0
+  have hpan : r.1.1.panicked = none := by rw [← hm]; exact hp
+  have hdv : r.1.1.doVerify = false := by rw [← hm]; exact hv
+  have hsh : r.1.1.stopHang = false := by rw [← hm]; rfl
+  have hnr : r.1.1.errC = false ∨ r.1.1.stopAnn = true := by
+    rw [← hm]
+    rcases hs with hs | hs
+    · exact Or.inr ((status_stopping_iff s).1 hs).2
+    · exact Or.inl ((status_stopped_iff s).1 hs)
+  obtain ⟨h1, h2⟩ := settle_not_running 11 r.1 hl hpan hdv hnr
+  rw [settle_step _ r.2.2 p.isSome (runWorkers_life 12 r.1 hl) (settle_nr h2)]
+  refine ⟨?_, h1⟩
+  rcases h2 with h2 | ⟨h2, _⟩
+  · exact h2
+  · rw [hsh] at h2; cases h2
+
+/-- `stop`, then (if a tracker hangs) the stop timeout: `Stopped`.  The only thing the intermediate state
+must not have done is panic (a write that was in flight completes during the stop; see `no_panic_partial`). -/
+theorem stop_waitstop_reaches_stopped (s : St) (p : Parked) (kn kn' : Nat → Bool) (h : Life s)
+    (hp : s.panicked = none) (hv : s.doVerify = false)
+    (hp' : (step s p kn .stop).1.st.panicked = none) :
+    (step (step s p kn .stop).1.st (step s p kn .stop).2 kn' .waitstop).1.st.status = .stopped := by
+  obtain ⟨h1, h2⟩ := stop_reaches_stopped_or_hangs s p kn h hp hv
+  refine (waitstop_reaches_stopped _ _ kn' (step_life s p kn .stop h) hp' h1 ?_).1
+  rcases h2 with h2 | h2
+  · exact Or.inr h2
+  · exact Or.inl h2.2.1
 
 end Rain.Loop
